@@ -366,3 +366,80 @@ def symmetric_store_report(body, arrays=None):
             out.append((arr, idx, v, st, mirrored))
     block(body)
     return out
+
+
+# ---------------------------------------------------------------------------
+# alpha-normalisation helpers (rules must not depend on local names)
+
+def canon_loopvars(body, letters="ijklmnop", depth=0):
+    """Copy of `body` with every for-loop variable renamed by nesting depth
+    (outermost i, then j, k, ...) inside the loop it controls."""
+    from .cymodel import rename_x, canonical_mapping
+    out = []
+    for st in body:
+        if st.k == "for" and st.a[0].k == "name" and depth < len(letters):
+            inner = canon_loopvars(st.a[2], letters, depth + 1)
+            m = canonical_mapping({st.a[0].a[0]: letters[depth]},
+                                  names_in(inner) | {st.a[0].a[0]})
+            rest = st.a[3:] if len(st.a) > 3 else ()
+            out.append(X("for", X("name", letters[depth], line=st.a[0].line), st.a[1],
+                         rename_x(inner, m), *rest, line=st.line))
+        elif st.k == "for":
+            rest = st.a[3:] if len(st.a) > 3 else ()
+            out.append(X("for", st.a[0], st.a[1],
+                         canon_loopvars(st.a[2], letters, depth + 1), *rest, line=st.line))
+        elif st.k == "while":
+            out.append(X("while", st.a[0], canon_loopvars(st.a[1], letters, depth),
+                         *st.a[2:], line=st.line))
+        elif st.k == "if":
+            out.append(X("if", [(c, canon_loopvars(b, letters, depth)) for c, b in st.a[0]],
+                         canon_loopvars(st.a[1], letters, depth), line=st.line))
+        else:
+            out.append(st)
+    return out
+
+
+def quotient_numerators(body) -> list:
+    """Names n appearing as `target = n / <expr>` (casts ignored): the counters
+    a counting kernel normalises."""
+    out = []
+
+    def strip(e):
+        while e.k == "cast":
+            e = e.a[1]
+        return e
+    for st in walk(body):
+        if isinstance(st, X) and st.k == "assign":
+            v = strip(st.a[1])
+            if v.k == "bin" and v.a[0] == "/" and strip(v.a[1]).k == "name":
+                out.append(strip(v.a[1]).a[0])
+    return out
+
+
+def quotients(body) -> list:
+    """[(numerator name, denominator name | None, stmt)] for every statement
+    `target = n / d` or `return n / d` (casts and float()/int() wrappers
+    ignored): how a counting kernel combines its counters."""
+    out = []
+
+    def strip(e):
+        while True:
+            if e.k == "cast":
+                e = e.a[1]
+            elif e.k == "call" and e.a[0].k == "name" and \
+                    e.a[0].a[0] in ("float", "int", "double") and len(e.a[1]) == 1:
+                e = e.a[1][0]
+            else:
+                return e
+    for st in walk(body):
+        if not isinstance(st, X):
+            continue
+        v = None
+        if st.k == "assign":
+            v = strip(st.a[1])
+        elif st.k == "return" and st.a and st.a[0] is not None:
+            v = strip(st.a[0])
+        if v is not None and v.k == "bin" and v.a[0] == "/" and strip(v.a[1]).k == "name":
+            d = strip(v.a[2])
+            out.append((strip(v.a[1]).a[0], d.a[0] if d.k == "name" else None, st))
+    return out
